@@ -28,6 +28,20 @@ def Reach (s : St) : Prop := ∃ es, run St.init es = some s
 @[simp] theorem upd_apply {α} (f : Nat → α) (k : Nat) (v : α) (q : Nat) :
     upd f k v q = if q = k then v else f q := rfl
 
+theorem tab_eq {α} (n : Nat) (f : Nat → α) : tabFn ((Array.range n).map f) f = f := by
+  funext q
+  unfold tabFn
+  split
+  · simp
+  · rfl
+
+/-- re-tabulating a state does not change it (the acceptor may do it freely) -/
+theorem compact_eq (ids : List Nat) (s : St) : s.compact ids = s := by
+  unfold St.compact
+  cases s
+  simp only [tab_eq]
+  congr 1 <;> (funext f; cases f <;> rfl)
+
 theorem flav_cases (f : Flav) : f = .aio ∨ f = .trio ∨ f = .thr := by cases f <;> simp
 
 theorem fl_cases (s : St) (p : Nat) : s.fl p = .aio ∨ s.fl p = .trio ∨ s.fl p = .thr := flav_cases _
